@@ -7,74 +7,12 @@ The model works on `Nat` (block sizes and image sizes are non-negative Python in
 `Int` with Python's floor `//` and `%` and `ZeroDivisionError`; the ties are stated for the casts of naturals.
 `num_overviews` is a `while` loop: the regenerated definition recurses on `dim + 1` units of fuel, and the tie shows
 the fuel is never exhausted (`gen_loop0_spec`).
+
+The theorems live in OdcGeo/Props/GenC05/*.lean, one compilation unit per tied function or small group; this file only
+imports them all (`lake build OdcGeo.Props.GenC05`).
 -/
-import OdcGeo.Gen.C05
-import OdcGeo.Gen.Tie
-import OdcGeo.Lemmas.GenC05
-import OdcGeo.Props.C05
-
-namespace OdcGeo.C05
-open OdcGeo.Gen
-
-/-! ## ties -/
-
-/-- `math.align_down` on naturals, positive alignment -/
-theorem tie_align_down (x a : Nat) (h : 0 < a) :
-    Gen.C05.align_down x a = .ok ((alignDown x a : Nat) : Int) := by
-  have h0 : (a : Int) ≠ 0 := by omega
-  have hp : (0 : Int) < a := by omega
-  have hle := Nat.mod_le x a
-  simp only [Gen.C05.align_down, alignDown, if_neg h0, Py.fmod_pos _ hp]
-  first
-    | (congr 1; push_cast [Nat.cast_sub hle]; first | rfl | ring1 | omega)
-    | tie_fin
-
-/-- `math.align_up` on naturals, positive alignment -/
-theorem tie_align_up (x a : Nat) (h : 0 < a) :
-    Gen.C05.align_up x a = .ok ((alignUp x a : Nat) : Int) := by
-  have e : ∀ y : Int, y = ((x + (a - 1) : Nat) : Int) →
-      Gen.C05.align_down y a = .ok ((alignDown (x + (a - 1)) a : Nat) : Int) := by
-    intro y hy; rw [hy]; exact tie_align_down _ _ h
-  simp only [Gen.C05.align_up, alignUp]
-  first
-    | (rw [e _ (by omega)])
-    | (simp only [e _ (by omega)])
-    | tie_fin
-
-/-- `_shared.adjust_blocksize(block, dim)` -/
-theorem tie_adjust_blocksize (block dim : Nat) :
-    Gen.C05.adjust_blocksize block dim = .ok ((adjustBlocksize block dim : Nat) : Int) := by
-  have h16 : ∀ x : Nat, Gen.C05.align_up x 16 = .ok ((alignUp x 16 : Nat) : Int) := by
-    intro x; have := tie_align_up x 16 (by omega); simpa using this
-  simp only [Gen.C05.adjust_blocksize, adjustBlocksize, h16]
-  repeat' split
-  all_goals first | rfl | (exfalso; omega) | tie_fin
-
-/-- `_shared.norm_blocksize`: an int, or a pair read as (y, x) -/
-theorem tie_norm_blocksize (blk : Blk) :
-    Gen.C05.norm_blocksize blk.toPy = .ok (((normBlocksize blk).y : Int), ((normBlocksize blk).x : Int)) := by
-  have h := fun x => tie_adjust_blocksize x 0
-  simp only [Nat.cast_zero] at h
-  cases blk <;> simp only [Blk.toPy, Gen.C05.norm_blocksize, normBlocksize, h]
-
-/-- `_shared.num_overviews`: the `while` loop terminates within `dim + 1` iterations and counts the model's value -/
-theorem tie_num_overviews (block dim : Nat) :
-    Gen.C05.num_overviews block dim = .ok ((numOverviews block dim : Nat) : Int) := by
-  obtain ⟨d', h⟩ := gen_loop0_spec (dim + 1) block 0 dim block 0 dim rfl rfl rfl (by omega)
-  have hf : numOverviewsFuel (dim + 1) block dim = numOverviews block dim :=
-    num_overviews_fuel_irrelevant (dim + 1) block dim (by omega)
-  have e : ((dim : Int)).toNat + 1 = dim + 1 := by omega
-  simp only [Gen.C05.num_overviews, e]
-  first
-    | (simp only [Nat.cast_zero] at h; rw [h]; simp [hf])
-    | (rw [h]; simp [hf])
-
-/-! ## headline theorems transferred -/
-
-/-- `num_overviews_spec` for the source `num_overviews`: the result is the least number of halvings of `dim`
-that brings it to at most `block` -/
-theorem gen_num_overviews_spec (block dim : Nat) :
-    ∃ n : Nat, Gen.C05.num_overviews block dim = .ok (n : Int) ∧ LeastHalvings block dim n :=
-  ⟨_, tie_num_overviews block dim, num_overviews_spec block dim⟩
-
-end OdcGeo.C05
+import OdcGeo.Props.GenC05.AlignDown
+import OdcGeo.Props.GenC05.AlignUp
+import OdcGeo.Props.GenC05.AdjustBlocksize
+import OdcGeo.Props.GenC05.NormBlocksize
+import OdcGeo.Props.GenC05.NumOverviews
